@@ -229,6 +229,42 @@ def build_nearly(name, n, rng):
     return jn, fn, tuple(a), kw
 
 
+UNDERFLOW = {"C05": ["classical_qsvd_full", "classical_qsvd"], "C06": ["qr_qua"], "C07": ["quaternion_lu", "quaternion_lu.mode2"],
+             "C08": ["tridiagonalize", "quaternion_eigendecomposition"], "C09": ["hessenbergize"],
+             "C10": ["quaternion_schur", "quaternion_schur_unified"], "C11": ["rank", "det", "quat_null_space"],
+             "C15": ["matrix_norm.2", "spectral_norm_2", "matrix_norm.1", "induced_matrix_norm_inf", "quat_frobenius_norm"],
+             "C19": ["power_iteration"], "C04": ["QGMRESSolver.solve", "QGMRESSolver.solve.left_lu"],
+             "C03": ["NewtonSchulzPseudoinverse.compute"]}
+HERMITIAN_INPUT = ("tridiagonalize", "quaternion_eigendecomposition", "power_iteration")
+
+
+def build_underflow(name, n, rng):
+    """name@ue: the first matrix argument replaced by an O(1) matrix in which scattered entries (among them sub-diagonal
+    ones, the pivots of the reductions) are scaled by 2^-505 .. 2^-545: numbers whose SQUARES are denormal or underflow.
+    To every relative tolerance they are zeros; a routine that forms moduli from squared components must not lose
+    unitarity or accuracy on them."""
+    base, how = name.split("@")
+    jn, fn, a, kw = build(base, max(n, 3), rng)
+    a = list(a)
+    k = next(i for i, x in enumerate(a) if isinstance(x, np.ndarray) and x.dtype == np.quaternion and x.ndim == 2)
+    G = rng.standard_normal((n, n, 4)) + (2.0 * np.sqrt(n) * np.eye(n)[:, :, None] * [1.0, 0, 0, 0] if base.startswith("QGMRES") else 0.0)
+    mask = rng.random((n, n)) < 0.2
+    for j in range(0, n - 1, 2):
+        mask[j + 1, j] = True
+    mask[np.arange(n), np.arange(n)] = False
+    expo = -rng.integers(505, 546, (n, n)).astype(float)
+    G = G * np.where(mask, 2.0 ** expo, 1.0)[:, :, None]
+    if base in HERMITIAN_INPUT:
+        U = np.triu(G.transpose(2, 0, 1), 1).transpose(1, 2, 0)
+        G = U + oherm(U)
+        for i in range(n):
+            G[i, i] = [float(rng.integers(1, 6)), 0, 0, 0]
+    a[k] = q_from_float(G)
+    if base in ("classical_qsvd", "rand_qsvd") and len(a) > k + 1:
+        a[k + 1] = min(int(a[k + 1]), n)
+    return jn, fn, tuple(a), kw
+
+
 def build_aspect(name, n, rng):
     """the routine's first matrix argument replaced by a STRONGLY rectangular one: name@ts -> (4n+3) x n, name@sf -> n x (4n+3)"""
     base, how = name.split("@")
@@ -253,7 +289,8 @@ def _job(args):
     if name.startswith("c14:"):
         return _c14_job(name[4:], n, seed)
     if "@" in name:
-        jn, fn, a, kw = (build_nearly if name.split("@")[1] in ("nh", "nt", "nu") else build_aspect)(name, n, rng)
+        how_ = name.split("@")[1]
+        jn, fn, a, kw = (build_nearly if how_ in ("nh", "nt", "nu") else build_underflow if how_ == "ue" else build_aspect)(name, n, rng)
     else:
         jn, fn, a, kw = build(name, n, rng)
     judge = {path.split(".")[-1] if "." not in path else path: j for _, path, j in J.REGISTRY}
@@ -324,6 +361,12 @@ def stage(ctx, quick=False):
                 if n > CAP.get(nm, 1000):
                     continue
                 jobs.append((nm + "@" + how, n, ctx.seed * 1013 + 31 * n + len(jobs)))
+    for nm in UNDERFLOW.get(ctx.pid, []):
+        for n in ((4, 6) if quick else (3, 4, 6, 8)):
+            if n > CAP.get(nm, 1000):
+                continue
+            for rep in range(1 if quick else 3):
+                jobs.append((nm + "@ue", n, ctx.seed * 1013 + 37 * n + rep + len(jobs)))
     outs = par.pmap(_job, jobs, chunk=1)
     rec = S.Rec()
     ncalls = 0
